@@ -139,8 +139,8 @@ EXTRA = [
         (J + "generator.py", "        fields_sets = [self._convert(data) for data in data_variants]", "        fields_sets = [self._convert(data) for data in list(data_variants)]"),
     ]),
     ("generators_helper_renamed", "the two renderer helpers are renamed", [
-        (J + "models/base.py", "    generators = _create_generators(structure, class_generator, class_generator_kwargs)\n    _fix_class_name_duplicates(generators)\n    return _render_generators(generators)",
-         "    generators = _build_generators(structure, class_generator, class_generator_kwargs)\n    _fix_class_name_duplicates(generators)\n    return _render_all(generators)"),
+        (J + "models/base.py", "    generators = _create_generators(structure, class_generator, class_generator_kwargs)\n    _fix_class_name_duplicates(generators)\n    _reserve_child_class_names(generators)\n    return _render_generators(generators)",
+         "    generators = _build_generators(structure, class_generator, class_generator_kwargs)\n    _fix_class_name_duplicates(generators)\n    _reserve_child_class_names(generators)\n    return _render_all(generators)"),
         (J + "models/base.py", "def _create_generators(structure", "def _build_generators(structure"),
         (J + "models/base.py", "            _create_generators(data[\"nested\"], class_generator, class_generator_kwargs)", "            _build_generators(data[\"nested\"], class_generator, class_generator_kwargs)"),
         (J + "models/base.py", "def _render_generators(generators", "def _render_all(generators"),
